@@ -72,6 +72,8 @@ func main() {
 			tier = "quick"
 		}
 		os.Exit(runCheck(id, tier))
+	case "debug":
+		os.Exit(debugCmd(os.Args[2:]))
 	case "mutant":
 		if len(os.Args) < 4 {
 			usage()
